@@ -342,26 +342,6 @@ fn drain(s: &mut Sub) -> Vec<String> {
     evs
 }
 
-async fn flush(nsubs: usize) -> bool {
-    let before = vh::SUBS_FLUSHED.load(SeqCst);
-    vh::FLUSH_GEN.fetch_add(1, SeqCst);
-    let deadline = Instant::now() + Duration::from_secs(60);
-    let mut bumped = Instant::now();
-    while vh::SUBS_FLUSHED.load(SeqCst) < before + nsubs as u64 {
-        if Instant::now() > deadline {
-            return false;
-        }
-        // a matcher that entered its loop after the bump took the bumped value as its baseline:
-        // bump again (matchers that already flushed have nothing new and flush an empty batch)
-        if bumped.elapsed() > Duration::from_millis(1500) {
-            vh::FLUSH_GEN.fetch_add(1, SeqCst);
-            bumped = Instant::now();
-        }
-        tokio::time::sleep(Duration::from_millis(3)).await;
-    }
-    true
-}
-
 /// case: sub <nq> {query} <nops> { L k {stmt} | R k {stmt} | D mode | Q | F }
 /// obs, per Q/F step and subscription:
 ///   db=<dump> ; then per sub  eq=<matview cells = user's query>  cid=<ids consecutive>
@@ -438,7 +418,8 @@ pub fn sub(t: &mut Toks) -> String {
                     if subs.is_empty() {
                         continue;
                     }
-                    let ok = flush(subs.len()).await;
+                    let ids: Vec<uuid::Uuid> = { use klukai_types::updates::Handle; subs.iter().map(|s| s.handle.id()).collect() };
+                    let ok = crate::util::flush_loops(&ids, 60).await;
                     let mut step = vec![format!("db={}", db_dump(&a).await)];
                     if !ok {
                         step.push("FLUSH-TIMEOUT".into());
